@@ -6,4 +6,5 @@ MCLpVals == {0, -1, NINF}
 MCLpValsSmall == {0, NINF}
 MCPriorSlopes == {-1, 0, 2}
 MCPriorSlopesSmall == {0, 2}
+MCPriorSlopesOne == {2}
 =============================================================================
